@@ -199,6 +199,30 @@ pub fn run_c01(out: &mut Out, rng: &mut Rng, tier: Tier) -> String {
             out.nontrivial();
         }
     }
+    // one history on matrices beyond the size thresholds at which an implementation might switch algorithms
+    for &(nr, nc) in &LARGE[..3] {
+        for order in ORDERS {
+            out.case(&format!("history large shape={nr}x{nc} order={} elem=tok ledger-deltas", ord_ch(order)));
+            out.nontrivial();
+            let mut w = World::<Tok>::new(out);
+            out.led_mode = true;
+            w.new_matrix(out, 0, order, nr, nc, 1);
+            w.order_op(out, 0, "transpose", None);
+            w.order_op(out, 0, "switch", None);
+            w.reshape(out, 0, nr, nc);
+            w.swap_vecs(out, 0, "swap_rows", 0, nr - 1);
+            w.swap_vecs(out, 0, "swap_cols", 0, nc - 1);
+            w.new_matrix(out, 1, order, 2, 3, 900000);
+            w.overwrite(out, 0, 1);
+            w.resize(out, 0, nr - 1, nc + 1);
+            w.order_op(out, 0, "set_order", Some(matreex::Order::ColMajor));
+            w.clone_reg(out, 2, 0);
+            w.ew(out, 3, 0, 2, "consume", "gen");
+            w.clear(out, 2);
+            end_of_history(out, &mut w);
+            out.led_mode = false;
+        }
+    }
     // index resolution through caller-defined (inconsistent) accessors
     crate::c04::stateful_small(out);
     // (C) other element types: 4-byte Copy, unit, zero-sized with drop glue
